@@ -8,3 +8,7 @@ open Cst.C07
 #print axioms relaxed_dec_races
 #print axioms release_only_dec_races
 #print axioms acquire_only_dec_races
+#print axioms slot_facts
+#print axioms slot_accesses_race_free
+#print axioms reference_sees_install
+#print axioms slot_scenario_relaxed_races
